@@ -43,6 +43,10 @@ const (
 type Fault struct {
 	Mode    string `json:"mode"`
 	DelayNs int64  `json:"delay_ns,omitempty"` // simulated latency before the response
+	// SplitBody: a healthy answer is delivered in two parts with a scheduling point in
+	// between, so that something else (a sibling slice failing, a deadline) can happen
+	// while the client is in the middle of reading the body
+	SplitBody bool `json:"split_body,omitempty"`
 }
 
 // Request is one HTTP request as the server saw it.
@@ -211,6 +215,19 @@ func (srv *Server) ServeHTTP(w http.ResponseWriter, r *http.Request) {
 		}
 		w.Header().Set("Content-Type", "application/json")
 		w.WriteHeader(code)
+		if f.SplitBody && len(body) > 8 {
+			half := len(body) / 2
+			_, _ = w.Write([]byte(body[:half]))
+			if fl, ok := w.(http.Flusher); ok {
+				fl.Flush()
+			}
+			srv.mu.Lock()
+			srv.Faults["split_body"]++
+			srv.mu.Unlock()
+			srv.S.Yield("srv.body", key)
+			_, _ = w.Write([]byte(body[half:]))
+			return
+		}
 		_, _ = w.Write([]byte(body))
 	case ModeHTTP500, ModeHTTP502, ModeHTTP503:
 		srv.finish(req, f.Mode, 0)
